@@ -1039,4 +1039,7 @@ def _run_rest(chk, fx):
         if f.get("body") and f["n"] == "write" and (f.get("cls") or "").endswith("EclOutput") and os.path.basename(f["file"]) in ("EclOutput.cpp", "EclOutput.hpp"):
             hdr_walk(stmt_list(f["body"]), None, f)
 
+    from verif import narrow
+    narrow.run_offwidth(chk, "C07")
+
     chk.assumptions += ["tables/ecl_layout.json: published Eclipse file-format constants"]
